@@ -31,6 +31,8 @@ import (
 	"strings"
 
 	"github.com/danos/encoding/rfc7951"
+	"github.com/danos/mgmterror"
+	"github.com/danos/utils/pathutil"
 	"github.com/sdcio/yang-parser/data/datanode"
 	"github.com/sdcio/yang-parser/schema"
 )
@@ -96,13 +98,22 @@ func (jr *JSONReader) values() ([]string, error) {
 	}
 }
 
-func (jr *JSONReader) unserializedChildren(_ []string, sn schema.Node) ([]unserialized, error) {
+func (jr *JSONReader) unserializedChildren(path []string, sn schema.Node) ([]unserialized, error) {
 	children := make([]unserialized, 0)
 
 	switch typeValue := jr.decodedMsg.(type) {
 	case map[string]interface{}: // Container
+		seen := make(map[string]bool, len(typeValue))
 		for k, v := range typeValue {
 			child := &JSONReader{decodedName: k, decodedMsg: v}
+			// "module:name" and "name" are the same node: as in XML,
+			// it can be given once only.
+			if seen[child.name()] {
+				err := mgmterror.NewTooManyElementsError(child.name())
+				err.Path = pathutil.Pathstr(path)
+				return nil, err
+			}
+			seen[child.name()] = true
 			children = append(children, child)
 		}
 	case []interface{}: // List or leaf-list
